@@ -93,6 +93,8 @@ HOSTILE_NAMES = [
 HOSTILE_RAW_TOKENS = [
     "'a\\nb'", "'\\\\'", "'a\\\\\\'b'", "'\\'); import os; (\\''", "'\\x41'", "'\\u0041'", "'a\\\nb'", "'\\\\n'", "'\\t\\r\\0'",
     "'\\'", "'\\'\\''", "'a\\'", "'\\\\\\''",
+    # other spellings of the compiler's internal goal name (a backslash is deleted by the reader)
+    "'\\$CUTIF'", "'$\\CUTIF'", "'$CUTI\\F'", "'\\$\\C\\U\\T\\I\\F'",
 ]
 QUERY_NAMES = ["atom", "variable", "functor", "functor1", "functor2", "functor3", "query", "unify", "match_dynamic", "makelist",
                "listpair", "__builtins__", "True", "False", "ATOM_NIL", "None", "exec", "eval", "__import__", "print", "open",
